@@ -72,7 +72,7 @@ func runBlocks(t fataler, c *bpfnative.Client, dir int, ip, oth [4]byte, t0 uint
 func TestPropGreedy(t *testing.T) {
 	c := startRunner(t)
 	p := newPlane(t, c)
-	vstat.Checks(30, 100)
+	vstat.Checks(30, 300)
 	budget := vstat.Scale(140_000, 500_000)
 	rapid.Check(t, func(rt *rapid.T) {
 		dir := dirEgress
